@@ -1,6 +1,7 @@
 package crl
 
 import (
+	"go.uber.org/zap"
 	"math/big"
 	"time"
 
@@ -20,6 +21,8 @@ var updatesOf map[*crlrepository.Repository]int
 // refreshed by at least one of any three consecutive ticks of B, whatever A does.
 func VerifC15_Ticks() {
 	crlrepository.VerifInstallWorld()
+	verifrt.InstallDirListing()
+	crlrepository.VerifInstallRepoConstructor()
 	updatesOf = map[*crlrepository.Repository]int{}
 	verifrt.Override("(*"+modRoot+"/crl/crlrepository.Repository).UpdateCRLs", func(r *crlrepository.Repository) { updatesOf[r]++ })
 	mk := func(label string) (*CRLRevocationChecker, int64) {
@@ -27,7 +30,10 @@ func VerifC15_Ticks() {
 		verifrt.Assume(iv >= 2)
 		verifrt.Assume(iv < 1<<40)
 		cfg := &config.CRLConfig{WorkDir: "/work-" + label, CDPConfig: &config.CDPConfig{}, UpdateIntervalParsed: time.Duration(iv)}
-		return &CRLRevocationChecker{crlRepository: crlrepository.VerifNewRepo(false, cfg), crlConfig: cfg}, iv
+		c := &CRLRevocationChecker{}
+		verifrt.Assume(c.Provision(cfg, zap.NewNop()) == nil) // the real Provision (own work_dir per validator)
+		verifrt.DropSpawned()
+		return c, iv
 	}
 	a, _ := mk("intervalA")
 	b, ivB := mk("intervalB")
